@@ -74,9 +74,10 @@ def correspond_diff(ctx, name, plan, diff_text, cwd, describe):
 
 
 CONTEXT_CLAUSES = ("line_before", "line_after")
+DP = [False]     # Gen.lineAfterDecodesParts as extracted in this run: decides whether undecodable lines are in scope
 
 
-def context_problems(plan, cwd, files):
+def context_problems(plan, cwd, files, decoded_parts=False):
     """each 'before' line is the file's current line, each match's 'after' line is that line with THAT match replaced:
     judged for every hunk against the file bytes (not only for single-hunk lines), on lines in C15's scope"""
     out = []
@@ -87,8 +88,9 @@ def context_problems(plan, cwd, files):
         data = files.get(planoracle.resolve(cwd, m["file"]))
         if data is not None:
             ls = data.rfind(b"\n", 0, m["start"]) + 1
-            if not planoracle.is_valid_utf8(data[ls:m["start"]]):
-                continue          # invalid UTF-8 in front of the match: outside C15's scope (C03 finding)
+            if not decoded_parts and not planoracle.is_valid_utf8(data[ls:m["start"]]):
+                continue          # invalid UTF-8 in front of the match: outside C15's scope (C03 finding) unless the planner
+                                  # decodes the text before / after the match separately (Gen.lineAfterDecodesParts)
         q = dict(p)
         q["file"], q["line"] = os.path.relpath(planoracle.resolve(cwd, m["file"]), cwd), m["line"]
         out.append(q)
@@ -218,8 +220,8 @@ def _cli_apply(case, tree):
         res.update({"status": "ok" if rc2 == 0 else "apply_failed", "plan": plan, "diff": diff, "before": before, "after": after,
                     "apply_err": err2.decode("utf-8", "replace")[-300:]})
         # a failed apply leaves no applied tree: the 'before' sides of the preview are still judged
-        res["problems"] = context_problems(plan, d, before) + \
-            planoracle.check_preview(plan, diff, d, before, after if rc2 == 0 else None)
+        res["problems"] = context_problems(plan, d, before, DP[0]) + \
+            planoracle.check_preview(plan, diff, d, before, after if rc2 == 0 else None, DP[0])
         res["plan_problems"] = planoracle.check_plan(plan, d, before)
         for p in res["problems"] + res["plan_problems"]:
             p["detail"] = p["detail"].replace(d, "<root>")
@@ -251,6 +253,7 @@ def run(ctx):
                         "only the uncoloured diff and the plan JSON are in scope (table/matches/summary previews and ANSI colouring are not)",
                         "similar's line differ breaks at a lone CR; the block is compared after re-joining its lines"]
     c03mod.run_translator(ctx)
+    DP[0] = bool(ctx.cov.get("extracted", {}).get("lineAfterDecodesParts"))
     ctx.prove(PROP)
     ok, msg = common.cargo_build()
     if not ok:
@@ -303,7 +306,7 @@ def run(ctx):
             if after is None:
                 # the plan does not fit the file (C03's subject): the 'before' sides can still be judged
                 ctx.count("scan:outside_reference_guard")
-            probs = context_problems(plan, d, files) + planoracle.check_preview(plan, diff, d, files, after)
+            probs = context_problems(plan, d, files, DP[0]) + planoracle.check_preview(plan, diff, d, files, after, DP[0])
             if probs:
                 for p in probs:
                     p["detail"] = p["detail"].replace(d, "<root>")
